@@ -258,11 +258,11 @@ pub fn run(ctx: &Ctx) {
     ctx.run("blake3-2to1", n(300, 30_000), || vec(any::<u16>(), 72..73), |c| check_block(c, 1));
     ctx.run("sha256-1to1", n(300, 30_000), || vec(any::<u16>(), 40..41), |c| check_block(c, 2));
     ctx.run("sha256-2to1", n(300, 30_000), || vec(any::<u16>(), 72..73), |c| check_block(c, 3));
-    ctx.run("keccak256", n(200, 20_000), || vec(any::<u16>(), 72..73), |c| check_block(c, 4));
+    ctx.run("keccak256", n(200, 6_000), || vec(any::<u16>(), 72..73), |c| check_block(c, 4));
     ctx.run("keccak-interleave", n(600, 60_000), || vec(any::<u16>(), 12..13), |c| check_block(c, 5));
-    ctx.run("sha256-memory", n(200, 20_000), || vec(any::<u16>(), 220..221), |c| check_block(c, 6));
+    ctx.run("sha256-memory", n(200, 8_000), || vec(any::<u16>(), 220..221), |c| check_block(c, 6));
     ctx.run("native", n(600, 60_000), || vec(any::<u16>(), 700..701), |c| check_block(c, 7));
-    ctx.run("sequence", n(400, 40_000), || vec(any::<u16>(), 230..231), check_sequence);
+    ctx.run("sequence", n(200, 6_000), || vec(any::<u16>(), 230..231), check_sequence);
 }
 
 pub fn replay(ctx: &Ctx, v: &serde_json::Value) {
